@@ -423,7 +423,7 @@ def run_property(a, prop, scratch, t0):
         for o in undecided:
             print('UNDECIDED property=%s obligation=%s: %s' % (prop, o.id, o.detail[:400].replace('\n', ' | ')))
         rc = 2
-    if not a.only:
+    if not a.only and not os.environ.get('VERIF_NO_EVIDENCE'):
         write_evidence(prop, a, obls, meta, violations, undecided, kf_lines, time.time() - t0, pl)
     n_proof = [o for o in obls if o.bound is None]
     print('%s tier=%s: %d obligations (%d unbounded, %d bounded), %d discharged, %d failed (%d known), %d undecided, %.1fs' % (
